@@ -330,5 +330,10 @@ def judge(ctx, case, obs, mouts):
     ctx.case_done(case, nontrivial)
 
 
+def extract(ctx):
+    from harness import extract_ast
+    extract_ast.gen_helper_table()
+
+
 run = common.default_run(sys.modules[__name__])
 search = common.default_search(sys.modules[__name__])
